@@ -397,6 +397,12 @@ func mkInputs(r *gen.Rand, dir string, variant int) inputs {
 		if i%5 == 4 {
 			s, _ = ref.RevComp(s)
 		}
+		switch i % 10 {
+		case 2: // a long sequence without any start codon (reported as removed), followed by ...
+			s = r.Str(r.Range(2500, 4000), "CGT")
+		case 3: // ... a short one: several workers finish them in another order than they were read
+			s = r.Str(r.Range(40, 80), "CGT")
+		}
 		orows[i] = gen.Seq{Name: fmt.Sprintf("q%03d", i), Seq: s}
 	}
 	in.orfSeqs = filepath.Join(dir, "orfseqs.fa")
